@@ -3,5 +3,6 @@ SPECIFICATION SpecK
 CONSTANTS
   Universe = "Q"
   Known <- KnownC04
+  Slice = 0
 INVARIANT NumKeyHarmless
 CHECK_DEADLOCK FALSE
